@@ -229,6 +229,9 @@ PROPS = {
              "bound": ("unknown keyword with %d arguments" % n if k == "kw" else "unknown block with %d items (scalars, comments, nested unknown blocks of depth <= 2)" % n) + ", symbolic identifiers, symbolic strictness, followed by {known tag, /begin known tag, parent /end}",
              "timeout": 300, "quick": n <= 2, "extra_modules": ["tokenizer"], "must_cover": ["non-strict run"]}
             for k in ("kw", "block") for n in (0, 1, 2, 3)
+        ] + [
+            {"engine": "E2", "module": "lib", "harness": "h_unknown_in_real_blocks", "functions": ["load_from_string", "parser::ParserState::handle_unknown_taggedstruct_tag", "specification::{Module,RecordLayout,Measurement,Characteristic,AxisDescr,CompuMethod}::parse (their TAG_LISTs)"],
+             "bound": "18 insertion points inside MODULE / RECORD_LAYOUT / MEASUREMENT / CHARACTERISTIC / AXIS_DESCR / COMPU_METHOD x 4 unknown payloads; model equality with the document without the element", "timeout": 600, "extra_modules": ["tokenizer"], "validate": 72},
         ],
     },
     "C05": {
@@ -255,6 +258,8 @@ PROPS = {
         "jobs": [
             {"engine": "E2", "module": "lib", "harness": "h_check_refs", "functions": ["A2lFile::check", "checker::check", "checker::check_*", "module::Module::objects/compu_tabs/typedefs", "load_from_string"],
              "bound": "fully consistent template module, and each of its 41 reference sites corrupted alone (42 cases)", "timeout": 600, "extra_modules": ["tokenizer"], "validate": 42},
+            {"engine": "E2", "module": "lib", "harness": "h_check_this_refs", "functions": ["checker::check_axis_descr_refs", "checker::is_valid_structure_component", "checker::check_typedef_characteristic"],
+             "bound": "TYPEDEF_CHARACTERISTIC with AXIS_PTS_REF THIS.ax used in 1 or 2 TYPEDEF_STRUCTUREs, each with or without the component (8 cases)", "timeout": 300, "extra_modules": ["tokenizer"]},
             {"engine": "E2", "module": "lib", "harness": "h_check_conventions", "functions": ["checker::check"],
              "bound": "one module using NO_COMPU_METHOD / NO_INPUT_QUANTITY / NO_INVERSE_TRANSFORMER at every site that allows them", "timeout": 200, "extra_modules": ["tokenizer"]},
             {"engine": "E2", "module": "lib", "harness": "h_check_axis_descr_count", "functions": ["checker::check_characteristic_common", "checker::check_axis_descr"],
@@ -322,7 +327,7 @@ PROPS = {
                         "A2ML includes, sub-directories and path separators are outside the claim"],
         "jobs": [
             {"engine": "E2", "module": "lib", "harness": "h_include_transparent", "functions": ["load", "tokenizer::tokenize", "parser::ParserState::get_incfilename", "writer::Writer::add_group", "A2lFile::write_to_string", "A2lObject::merge_includes", "loader::load"],
-             "bound": "36 splittings x {quoted, unquoted}", "timeout": 400, "extra_modules": ["tokenizer"], "validate": 36},
+             "bound": "36 splittings x {quoted, unquoted} x {with, without a further include behind the nested one}", "timeout": 400, "extra_modules": ["tokenizer"], "validate": 36},
             {"engine": "E2", "module": "lib", "harness": "h_include_missing", "functions": ["load", "tokenizer::tokenize", "loader::load"],
              "bound": "missing include file, directly or nested, quoted or unquoted", "timeout": 200, "extra_modules": ["tokenizer"]},
         ],
